@@ -369,6 +369,9 @@ structure Tree where
   inOrder : Bool
   /-- which `_delete` the code implements (see `deleteRoot`) -/
   collapseAlways : Bool
+  /-- whether `_delete` also collapses an emptied root when `delete` raised (`delete_exact` of an element that is
+  not stored): `false` = the code as it is, `true` = with the repair corpus/C19/FIX-*.diff -/
+  collapseOnError : Bool
 
 inductive Outcome (α : Type) where
   | ok (a : α)
@@ -376,8 +379,8 @@ inductive Outcome (α : Type) where
   | valueError
   | indexError
 
-def Tree.empty (t : Nat) (io : Bool) (collapseAlways : Bool := false) : Tree :=
-  ⟨t, .leaf [], 0, false, io, collapseAlways⟩
+def Tree.empty (t : Nat) (io : Bool) (collapseAlways : Bool := false) (collapseOnError : Bool := false) : Tree :=
+  ⟨t, .leaf [], 0, false, io, collapseAlways, collapseOnError⟩
 
 /-- `BTree(original=…)` / `copy.copy`: allowed only from an immutable tree -/
 def Tree.clone (o : Tree) (io : Bool) : Option Tree :=
@@ -399,7 +402,7 @@ def Tree.delete (tr : Tree) (key : Nat) (exact : Option Elt) : Tree × Outcome (
     match deleteRoot tr.collapseAlways tr.t tr.root key exact with
     | (r, .ok old) =>
       ({ tr with root := r, size := if old.isSome then tr.size - 1 else tr.size }, .ok old)
-    | (r, .valueError) => ({ tr with root := r }, .valueError)
+    | (r, .valueError) => ({ tr with root := if tr.collapseOnError then collapseRoot r else r }, .valueError)
     | (r, .indexError) => ({ tr with root := r }, .indexError)
 
 def Tree.get (tr : Tree) (key : Nat) : Option Elt := BTree.get (height tr.root) tr.root key
